@@ -143,6 +143,7 @@ omit sc in
 /-- the `b` segment: `read_bounds` goes from true to false -/
 theorem reads_varBounds (m : Model) (hlen : m.vb.length = h'.nv) :
     Reads cd h' 1 true false (wVarBounds m o) (evVarBnds cd 0 m.vb) := by
+  refine ⟨?_, Or.inr ⟨rfl, rfl⟩, fun hc => by simp at hc⟩
   intro f rest r hr
   have hb := readBnd_vars cd (h' := h') m.vb 0 rest
   rw [hlen] at hb
